@@ -13,6 +13,8 @@ def simp(n):
     n = tuple(simp(x) if isinstance(x, tuple) else x for x in n)
     if n[0] == "sub_off" and n[1][0] == "data":
         return n[1][1]
+    if n[0] == "data" and n[1][0] == "sub_off":
+        return n[1][1]  # the same lemma read the other way: the payload of the block a payload pointer belongs to
     if n[0] == "dataplace":
         return ("data", n[1], n[2] or "ref")
     return n
@@ -162,6 +164,25 @@ def run(ctx, rep):
                 rep.ok("R-RAWPAIR", "ArcBorrow::from_ptr stores the given address", cfg=tag)
             else:
                 rep.bad("R-RAWPAIR", "ArcBorrow::from_ptr stores the given address", "stores %s" % ptrclass.show(o), F.loc(b1), tag)
+        # clones and clone_arc keep the address: "identical across clones and handle moves"
+        for h in ("Arc", "ThinArc", "OffsetArc"):
+            for b in F.method(h, "clone", "Clone"):
+                n = simp(N.ret(b["key"]))
+                want = ("mk", h, ("stored", ("arg", 1), PF.get(h)))
+                ik = "%s::clone keeps the stored address" % h
+                if n == want:
+                    rep.ok("R-RAWPAIR", ik, cfg=tag)
+                else:
+                    rep.bad("R-RAWPAIR", ik, "a clone must hold the very pointer its source holds; %s::clone yields %s" % (h, ptrclass.show(n)), F.loc(b), tag)
+        for h, fld, off in (("OffsetArc", fOff, True),):
+            for b in F.method(h, "clone_arc"):
+                n = simp(N.ret(b["key"]))
+                want = ("mk", "Arc", ("sub_off", ("stored", ("arg", 1), fld)))
+                ik = "%s::clone_arc recovers the block from the stored value address" % h
+                if n == want:
+                    rep.ok("R-RAWPAIR", ik, cfg=tag)
+                else:
+                    rep.bad("R-RAWPAIR", ik, "yields %s" % ptrclass.show(n), F.loc(b), tag)
         # heap_ptr = block start
         for h, fld in (("Arc", fArc), ("ThinArc", fThin)):
             b1, o = nf(h, "heap_ptr")
@@ -201,7 +222,7 @@ def run(ctx, rep):
     c05.rule_data_offset(ctx, rep)
     # ---------------------------------------------------------- R-WIDTH: compile-time layout witnesses
     c13.rule_witnesses(ctx, rep, prefix="c11_")
-    rep.floor("R-RAWPAIR", 14, "value address, agreement, round trips, OffsetArc/ArcBorrow forms, heap_ptr")
+    rep.floor("R-RAWPAIR", 18, "value address, agreement, round trips, OffsetArc/ArcBorrow forms, heap_ptr")
     rep.floor("R-NOREF", 5, "accessors whose result is fed back to from_raw")
     rep.floor("R-REPR", 6, "five transparent handles + ArcUnion")
     rep.floor("R-STABLE", 2, "StableDeref and CloneStableDeref for Arc")
